@@ -153,6 +153,61 @@ func repeatBatches(k int, mk func() any) func() []any {
 	}
 }
 
+// distinctBatch: n items whose every string / id field holds a value never seen before on the stream (base keeps them apart
+// across batches): all dictionary columns of the main record grow by n entries in the same batch.
+func distinctBatch(sig, n, base int) any {
+	id8 := func(i int) [8]byte { return [8]byte{byte(i >> 24), byte(i >> 16), byte(i >> 8), byte(i), 7, 7, 7, 7} }
+	id16 := func(i int) [16]byte {
+		return [16]byte{byte(i >> 24), byte(i >> 16), byte(i >> 8), byte(i), 1, 2, 3, 4, 5, 6, 7, 8, 9, 9, 9, 9}
+	}
+	switch sig {
+	case 0:
+		td := ptrace.NewTraces()
+		ss := td.ResourceSpans().AppendEmpty().ScopeSpans().AppendEmpty()
+		for k := 0; k < n; k++ {
+			i := base + k
+			sp := ss.Spans().AppendEmpty()
+			sp.SetName(fmt.Sprintf("name-%d", i))
+			sp.SetTraceID(pcommon.TraceID(id16(i)))
+			sp.SetSpanID(pcommon.SpanID(id8(i)))
+			sp.SetParentSpanID(pcommon.SpanID(id8(i + 1000000)))
+			sp.TraceState().FromRaw(fmt.Sprintf("k=%d", i))
+			sp.Status().SetMessage(fmt.Sprintf("msg-%d", i))
+			sp.SetStartTimestamp(pcommon.Timestamp(1_700_000_000_000_000_000 + uint64(i)*1000))
+			sp.SetEndTimestamp(pcommon.Timestamp(1_700_000_000_000_000_000 + uint64(i)*1000 + uint64(i)))
+		}
+		return td
+	case 1:
+		ld := plog.NewLogs()
+		sl := ld.ResourceLogs().AppendEmpty().ScopeLogs().AppendEmpty()
+		for k := 0; k < n; k++ {
+			i := base + k
+			lr := sl.LogRecords().AppendEmpty()
+			lr.SetSeverityText(fmt.Sprintf("sev-%d", i))
+			lr.Body().SetStr(fmt.Sprintf("body-%d", i))
+			lr.SetTraceID(pcommon.TraceID(id16(i)))
+			lr.SetSpanID(pcommon.SpanID(id8(i)))
+			lr.SetEventName(fmt.Sprintf("event-%d", i))
+			lr.SetTimestamp(pcommon.Timestamp(1_700_000_000_000_000_000 + uint64(i)*1000))
+			lr.SetObservedTimestamp(pcommon.Timestamp(1_700_000_000_000_000_000 + uint64(i)*3000))
+			lr.SetSeverityNumber(plog.SeverityNumber(1 + i%24))
+		}
+		return ld
+	default:
+		md := pmetric.NewMetrics()
+		sm := md.ResourceMetrics().AppendEmpty().ScopeMetrics().AppendEmpty()
+		for k := 0; k < n; k++ {
+			i := base + k
+			m := sm.Metrics().AppendEmpty()
+			m.SetName(fmt.Sprintf("metric-%d", i))
+			m.SetDescription(fmt.Sprintf("description-%d", i))
+			m.SetUnit(fmt.Sprintf("unit-%d", i))
+			m.SetEmptyGauge().DataPoints().AppendEmpty().SetIntValue(int64(i))
+		}
+		return md
+	}
+}
+
 func smallTraces() ptrace.Traces { return manySpans(3, true, 1) }
 
 func boundaryCases(tier string) []boundaryCase {
@@ -194,6 +249,16 @@ func boundaryCases(tier string) []boundaryCase {
 		{Name: "3 x 25000 link-only spans", Batches: repeatBatches(3, func() any { return spansOfKinds(25000, func(int) int { return 3 }) }), Expect: []string{"ok", "ok", "ok"}},
 		{Name: "3 x 25000 event-only spans", Batches: repeatBatches(3, func() any { return spansOfKinds(25000, func(int) int { return 2 }) }), Expect: []string{"ok", "ok", "ok"}},
 		{Name: "3 x 23000 resources and scopes with a valueless attribute only", Batches: repeatBatches(3, func() any { return resourcesValueless(23000) }), Expect: []string{"ok", "ok", "ok"}},
+		// many dictionary columns of one record crossing an index width in the same batch (one schema-update round must handle them all)
+		{Name: "traces: 10, then 300, then 10 spans distinct in every column", Batches: func() []any {
+			return []any{distinctBatch(0, 10, 0), distinctBatch(0, 300, 10), distinctBatch(0, 10, 310), smallTraces()}
+		}, Expect: []string{"ok", "ok", "ok", "ok"}},
+		{Name: "logs: 10, then 300 records distinct in every column", Batches: func() []any {
+			return []any{distinctBatch(1, 10, 0), distinctBatch(1, 300, 10), distinctBatch(1, 10, 310)}
+		}, Expect: []string{"ok", "ok", "ok"}},
+		{Name: "metrics: 10, then 300 metrics distinct in every column", Batches: func() []any {
+			return []any{distinctBatch(2, 10, 0), distinctBatch(2, 300, 10), distinctBatch(2, 10, 310)}
+		}, Expect: []string{"ok", "ok", "ok"}},
 		{Name: "uint8 dictionary limit, one batch with 300 span names x 10 (reset regime)", Options: []cfgpkg.Option{cfgpkg.WithUint8LimitDictIndex()}, Batches: func() []any {
 			td := ptrace.NewTraces()
 			ss := td.ResourceSpans().AppendEmpty().ScopeSpans().AppendEmpty()
